@@ -838,6 +838,112 @@ fn report(rep: &mut Report, rt: &tokio::runtime::Runtime, prop: &str, sc: &Scena
     }
 }
 
+
+/// Directed (C08's cross-component order, C07's "protocols before the manager"): with the
+/// protocol's event channel full, `report_connection_closed` must block on the protocol and the
+/// manager must not learn about the closure before the protocol's channel has taken the report.
+/// The channel is filled through the real `ProtocolSet` of the connection (substream open
+/// failures), the report future is polled by hand, the manager is polled in between.
+pub fn directed_close_order(rep: &mut Report, prop: &str, seed: u64) {
+    use futures::Future;
+    use litep2p::{error::SubstreamError, types::{protocol::ProtocolName, SubstreamId}, verif::manager::{manager_next, VTransportEvent}};
+    use std::task::Poll;
+    let r = guarded(move || {
+        let rt = real_runtime();
+        let _g = rt.enter();
+        let mut s = [0u8; 32];
+        Rng::new(seed).fill(&mut s);
+        let protos = [ProtoCfg { name: NAMES[0], keep_alive: SubstreamKeepAlive::Yes, timeout: Duration::from_secs(3600) }];
+        let mut world = World::new(s, (None, None), &protos, &[]);
+        let peer = test_peer(seed, 0);
+        let cid = world.inbound_arrives();
+        if !world.inbound_established(cid, peer, addr("/ip4/172.16.0.9/tcp/40009")) {
+            return Err("setup: connection not established".to_string());
+        }
+        // take the connection out of the world: from here on this function plays the connection task
+        let conn = {
+            let mut sh = world.shared.lock();
+            let Some(p) = sh.live.iter().position(|c| c.cid == cid) else { return Err("setup: no live connection".into()) };
+            sh.live.remove(p)
+        };
+        let crate::sworld::LiveConn { mut set, .. } = conn;
+        // the pump above polled the service: its channel is empty. Fill it without polling.
+        let mut filled = 0usize;
+        loop {
+            let fut = set.report_substream_open_failure(ProtocolName::from(NAMES[0]), SubstreamId::from(1_000_000 + filled), SubstreamError::ConnectionClosed);
+            match poll_once(fut) {
+                Poll::Ready(Ok(())) => filled += 1,
+                Poll::Ready(Err(e)) => return Err(format!("setup: fill failed: {e:?}")),
+                Poll::Pending => break,
+            }
+            if filled > 100_000 {
+                return Err("setup: channel never filled".into());
+            }
+        }
+        // the closure report: must block on the protocol
+        let mut mgr_closed_while_blocked = false;
+        let mut blocked = false;
+        {
+            let mut fut = Box::pin(set.verif_report_connection_closed(peer, cid));
+            let waker = futures::task::noop_waker();
+            let mut cx = std::task::Context::from_waker(&waker);
+            for round in 0..3 {
+                match fut.as_mut().poll(&mut cx) {
+                    Poll::Pending => {
+                        blocked = true;
+                        // the manager runs while the report is blocked on the protocol
+                        while let Poll::Ready(Some(ev)) = poll_once(manager_next(&mut world.mgr)) {
+                            if let VTransportEvent::ConnectionClosed { peer: p, .. } = ev {
+                                if p == peer {
+                                    mgr_closed_while_blocked = true;
+                                }
+                            }
+                        }
+                        // the protocol makes room
+                        if let Some(svc) = world.services[0].1.as_mut() {
+                            let _ = poll_once(svc.next());
+                            let _ = poll_once(svc.next());
+                        }
+                    }
+                    Poll::Ready(_) => break,
+                }
+                let _ = round;
+            }
+        }
+        let mut mgr_closed_after = false;
+        while let Poll::Ready(Some(ev)) = poll_once(manager_next(&mut world.mgr)) {
+            if let VTransportEvent::ConnectionClosed { peer: p, .. } = ev {
+                if p == peer {
+                    mgr_closed_after = true;
+                }
+            }
+        }
+        Ok((filled, blocked, mgr_closed_while_blocked, mgr_closed_after))
+    });
+    match r {
+        Ok(Ok((filled, blocked, early, after))) => {
+            rep.hit("directed_close_order_runs");
+            rep.count("directed_close_order_channel_fill", filled as u64);
+            let replay = json!({"directed": "close-order", "seed": seed});
+            if !blocked {
+                rep.inconclusive("close-order scenario: the report did not block on the full protocol channel");
+            } else if early {
+                rep.violation(
+                    format!("{prop}/manager-told-closed-before-protocols"),
+                    format!("with the protocol's channel full ({filled} events) report_connection_closed was blocked on the protocol and the manager had already emitted ConnectionClosed"),
+                    replay,
+                );
+            } else if !after {
+                rep.violation(format!("{prop}/manager-never-told-closed"), "after the protocol took the report the manager emitted no ConnectionClosed".to_string(), replay);
+            } else {
+                rep.hit("directed_close_order_protocols_first");
+            }
+        }
+        Ok(Err(e)) => rep.inconclusive(format!("close-order scenario: {e}")),
+        Err(p) => rep.violation(format!("{prop}/panic/{}", crate::common::panic_site(&p)), p, json!({"directed": "close-order", "seed": seed})),
+    }
+}
+
 pub fn run(ctx: &Ctx, prop: &'static str) -> Report {
     let mut rep = Report::new(
         prop,
@@ -851,6 +957,10 @@ pub fn run(ctx: &Ctx, prop: &'static str) -> Report {
     let rt = runtime();
     if let Some(path) = &ctx.replay {
         let v: Value = serde_json::from_slice(&std::fs::read(path).expect("replay")).expect("json");
+        if v["replay"]["directed"] == "close-order" {
+            directed_close_order(&mut rep, prop, v["replay"]["seed"].as_u64().unwrap_or(1));
+            return rep;
+        }
         match Scenario::from_json(&v["replay"]) {
             Some(sc) => {
                 let r = execute(&rt, &sc);
@@ -861,6 +971,9 @@ pub fn run(ctx: &Ctx, prop: &'static str) -> Report {
         return rep;
     }
     let mut rng = ctx.rng("c08");
+    if prop == "C08" {
+        directed_close_order(&mut rep, prop, rng.u64());
+    }
     // family 1 (C08 only): virtual time, bulk — grammar of connection/substream events without
     // keep-alive expiry; family 2: real time with short keep-alive timeouts (downgrades, C09).
     let n_virtual = if prop == "C08" { ctx.pick(24_000, 400_000) / ctx.nshards } else { 0 };
@@ -934,6 +1047,7 @@ pub fn run(ctx: &Ctx, prop: &'static str) -> Report {
         rep.floor("svc_substream_failure_events", 30);
         rep.floor("answered_requests_checked", 100);
         rep.floor("mgr_closed_events", 100);
+        rep.floor("directed_close_order_protocols_first", 1);
     } else {
         rep.floor("connections_released_by_keep_alive", 300);
         rep.floor("idle_phase_checks", 300);
